@@ -6,6 +6,7 @@ from .lang import Roles, cast_is_value_preserving
 from .origin import Origins, show, walk
 from . import p_c01, p_c06, p_c13, p_c03
 
+TECHNIQUE = 'static analysis: event-language equality of refill/pop/push wrappers and of the emitted runtime; cast lint (no narrowing conversion on the text path); checked scalar-value conversion shape'
 LEVEL = "other"
 EXPLANATION = (
     "The text path is decided structurally on all paths: (REFILL) reading from stack 0 refills it from ONE line of "
